@@ -165,6 +165,11 @@ def check(model: Model, report: Report) -> None:
     fired = set()
     for part, key, msg, fn in dm.problems:
         rule = RULE_OF.get(part, "R09.1")
+        if key.endswith(":shape") or key in ("loop:shape", "loop:accumulator"):
+            # the decoder is written in a way this analysis does not recognise: no verdict, not a violation
+            report.undecided(rule, fn.qualname, f"{key}: {msg}")
+            fired.add(rule)
+            continue
         report.fail(rule, fn.qualname, key, msg, file=fn.file, line=fn.line)
         fired.add(rule)
     et = model.func("parse.Parser._decode_escape_sequence")
